@@ -244,6 +244,7 @@ def pureOp (w : List String) : Option String :=
       let st ← decState r t; let c ← decMat c
       pure (encRows (sample st c))
   | ["density", r, t] => do let st ← decState r t; pure (encRows (densityRows st))
+  | ["densitypoly", r, t] => do let st ← decState r t; pure (encPoly (densityPoly st))
   | ["front", g] => do let g ← decStr g; pure (toString (front g))
   | ["condense", g] => do
       let g ← decStr g
